@@ -6,6 +6,7 @@
 
 mod chan;
 mod core;
+mod lock;
 mod registry;
 
 use crate::core::batch::Tier;
